@@ -84,3 +84,15 @@ fixed("C09","C09-in-without-parenthesis","IN requires a parenthesised operand li
 fixed("C09","C09-in-empty-list","IN with an empty operand list is rejected","'a IN ( )' evaluated to false")
 fixed("C09","C09-add-delete-nontoplevel-silent","ADD and DELETE on anything but a top-level attribute","'ADD m.x :n' / 'ADD a + b :n' succeeded without doing anything")
 fixed("C09","C09-condition-as-function-operand","a condition cannot be the operand of a function","'attribute_exists(a = b)' was evaluated")
+fixed("C10","C10-empty-binary-unsupported","an item holding an empty binary value can be updated","any UpdateItem or condition on an item holding an empty binary value failed with 'value type is not supported yet'")
+known("C10","C10-v2-empty-container-as-null","the SDK v2 client returns empty binary values, empty lists and empty maps as NULL, at the top level and nested, on every read path (the v2 mapper chooses the type by len() != 0 tests and falls through to NULL); pinned by the repository's own TestMapTypesToDynamo and TestUpdateExpressions/remove. Attributed only when the value read equals the value written with every empty container replaced by NULL",
+ ["C10|%s|value-changed|explained-by-empty-container-returned-as-NULL=true|%s@v2" % (p,w) for p in ("GetItem","Query","Scan","BatchGetItem","GetItem-after-unrelated-UpdateItem") for w in ("top","nested")],
+ {"op":"v2 PutItem {h:k, v: L[]} then GetItem -> v: NULL"})
+fixed("C12","C12-untouched-number-reserialised","an update keeps the stored representation of attributes whose value did not change","any UpdateItem re-serialised every number of the item through float64: an untouched 38-digit attribute was rounded to 17 digits")
+known("C12","C12-numbers-are-float64","numbers are IEEE doubles inside the expression interpreter: numerals that differ beyond 15-17 significant digits compare equal (9007199254740993 = 9007199254740992), 0.1 + 0.2 is 0.30000000000000004, set membership and BETWEEN/IN inherit it. Replacing float64 by a decimal type is a redesign of interpreter/language/object.go. Attributed only when the answer is exactly what double arithmetic predicts",
+ ["C12|cmp|explained-by-float64=true","C12|between|explained-by-float64=true","C12|in|explained-by-float64=true","C12|contains|explained-by-float64=true","C12|arith|explained-by-float64=true","C12|ns-add|explained-by-float64=true","C12|ns-delete|explained-by-float64=true"],
+ {"expression":"a = :n","a":"9007199254740993",":n":"9007199254740992","observed":"true"})
+known("C12","C12-number-keys-are-text","number-typed key attributes are identified and ordered by the text of the numeral: an item put under h=1 is not found under h=1.0 (and both can be stored side by side); Query returns number sort keys in text order (1, 10, 2) and binary sort keys in the order of their '%v' rendering. Keys are strings ordered by sort.Strings and the key format is pinned by the repository's own core TestGetKey. Attributed only when the answer is exactly what the text model predicts",
+ ["C12|key-identity|%s|%s|explained-by-key-text=true@%s" % (p,o,d) for p in ("hash","range") for o in ("get","overwrite") for d in ("v1","v2")] +
+ ["C12|key-order|%s|explained-by-text-order=true@%s" % (t,d) for t in ("N","B") for d in ("v1","v2")],
+ {"history":["CreateTable tab (h:N)","PutItem {h:1}"],"op":"GetItem {h:1.0} -> nothing"})
